@@ -1,5 +1,5 @@
 (** C16 — memory hierarchies are transparent to requesters.  Property theorems only. *)
-From Akita Require Import Lib.Base C16.Model C16.Proofs.
+From Akita Require Import Lib.Base C16.Model C16.Proofs C16.Spec C16.Proofs2.
 Local Open Scope N_scope.
 
 (** L0.  The masked read-modify-write performed by the ideal controller, the
@@ -37,6 +37,48 @@ Theorem c16_dram_write_old_refuted :
     mget m' 1 <> mget (write_flat m addr data mask 0) 1.
 Proof. exact dram_write_old_refuted. Qed.
 Print Assumptions c16_dram_write_old_refuted.
+
+(** L2.  Soundness of the requester-view acceptor: every accepted history of a
+    requester's port satisfies the declarative statement [Spec.Declarative]
+    (requests well formed, fresh and byte-disjoint in flight; every response
+    answers a request in flight with the matching kind, addressed to its sender;
+    every read returns for each byte the latest acknowledged write in
+    acknowledgement order, zero if never written; nothing unanswered at the end). *)
+Theorem accepts_sound : forall tr, accepts tr = true -> Declarative tr.
+Proof. exact accepts_sound_proof. Qed.
+Print Assumptions accepts_sound.
+
+(** Consequence: every request receives exactly one response, after it was sent. *)
+Theorem c16_exactly_one_response : forall tr, accepts tr = true ->
+  forall k r, nth_error tr k = Some (Send r) ->
+    (exists j isd dst data, (k < j)%nat /\ nth_error tr j = Some (Recv isd (r_id r) dst data)) /\
+    (forall j1 j2 i1 d1 x1 i2 d2 x2,
+        nth_error tr j1 = Some (Recv i1 (r_id r) d1 x1) ->
+        nth_error tr j2 = Some (Recv i2 (r_id r) d2 x2) -> j1 = j2).
+Proof. intros tr H. apply exactly_one_response. apply accepts_sound. exact H. Qed.
+Print Assumptions c16_exactly_one_response.
+
+(** the flat memory of the statement is the fold of the masked writes (L0 meets L2) *)
+Theorem c16_latest_is_flat_write : forall ws w a,
+  latest (ws ++ [w]) a =
+  if dirty_at (r_addr w) (r_data w) (r_mask w) 0 a then nth (N.to_nat (a - r_addr w)) (r_data w) 0
+  else latest ws a.
+Proof. exact latest_snoc. Qed.
+Print Assumptions c16_latest_is_flat_write.
+
+(** non-vacuity: a history with two in-flight requests, a masked write and reads is accepted;
+    dropping the write's data (a read of stale zeros after the acknowledgement) is rejected *)
+Example c16_accepts_nonvacuous :
+  let src := [65; 46; 77] in
+  let w := Rq 1 true 100 4 [9; 8; 7; 6] (Some [true; false; true; true]) src in
+  let r1 := Rq 2 false 200 2 [] None src in
+  let r2 := Rq 3 false 99 4 [] None src in
+  accepts [Send w; Send r1; Recv true 2 src [0; 0]; Recv false 1 src []; Send r2; Recv true 3 src [0; 9; 0; 7]] = true /\
+  accepts [Send w; Recv false 1 src []; Send r2; Recv true 3 src [0; 0; 0; 0]] = false /\
+  accepts [Send w; Send r2] = false /\
+  accepts [Send w; Recv false 1 src []; Recv false 1 src []] = false /\
+  accepts [Send w] = false.
+Proof. vm_compute. repeat split; reflexivity. Qed.
 
 Example c16_merge_nonvacuous :
   exists m', rmw_write (save empty_store 10 [1; 2; 3; 4]) 11 [9; 8; 7] (Some [true; false; true]) = Some m' /\
